@@ -12,7 +12,7 @@ LEVEL = "exploration"
 RULE = (
     "case = (ping_interval I, ping_timeout T, payload, per-ping pong latencies: all < T | silent from ping n on | some "
     "late, server traffic times (data, pings, unsolicited pongs), schedule choices for ping thread vs reader + sampled "
-    "line preemptions). Grid: invalid pairs (T <= 0, I < 0, I <= T) and valid pairs T in {1,2,3,5} x I in {T+0.1, 1.5T, "
+    "line preemptions), optionally as the second run on an object that already completed a healthy run). Grid: invalid pairs (T <= 0, I < 0, I <= T) and valid pairs T in {1,2,3,5} x I in {T+0.1, 1.5T, "
     "2T, 2T+0.1, 3T, 10T} (all enumerated with silent and responsive peers; Hypothesis varies the rest). Non-trivial: "
     "scenario with >= 3 pings and either a silent suffix or server traffic within +-T of a ping; invalid pairs. "
     "Distinct = the scenario."
@@ -79,7 +79,9 @@ def run_case(case):
         else:
             pongs.append(lat[i] if i < len(lat) else case.get("default_lat", 0.01))
     spec = {"timeline": timeline, "pong": pongs, "default_pong": None if silent_from is not None else case.get("default_lat", 0.01)}
-    sc = simpeers.Scenario(sched, net, [spec])
+    rerun = bool(case.get("rerun"))
+    first = {"timeline": [[3 * I + 1, ["data", rm.encode_frame(1, rm.CLOSE, struct.pack(">H", 1000))]]], "default_pong": 0.01}
+    sc = simpeers.Scenario(sched, net, [first, spec] if rerun else [spec])
     trace = []
     res = {}
     payload = case.get("payload", "")
@@ -90,6 +92,11 @@ def run_case(case):
 
         app = websocket.WebSocketApp(("wss" if case.get("secure") else "ws") + "://c16.test/", on_error=on_error, on_close=lambda a, c, r: trace.append((sched.now, "close", c, r)),
                                      on_open=lambda a: trace.append((sched.now, "open")))
+        if rerun:
+            # an earlier, healthy run on the same object; the judged run is the second one
+            app.run_forever(ping_interval=I, ping_timeout=T, ping_payload=payload)
+            res["first_pings"] = len(sc.peers[0][1].pings)
+            del trace[:]
         res["ret"] = app.run_forever(ping_interval=I, ping_timeout=T, ping_payload=payload)
         res["t_end"] = sched.now
         # let virtual time run on: no ping may be sent after the run ended
@@ -107,7 +114,10 @@ def run_case(case):
     if main.exc is not None:
         obs.fail(exc_bucket(f"{tag}|run_forever-raised", main.exc), f"{type(main.exc).__name__}: {main.exc}")
         return _cls(obs, case, 0)
-    peer = sc.peers[0][1]
+    peer = sc.peers[-1][1]
+    if rerun and len(sc.peers) < 2:
+        obs.fail(f"{tag}|second-run-did-not-connect", f"peers {len(sc.peers)}")
+        return _cls(obs, case, 0)
     t0 = peer.established_at or 0.0
     t_end = res["t_end"]
     pings = peer.pings
@@ -127,8 +137,8 @@ def run_case(case):
             if abs((b - a) - I) > 1e-3:
                 obs.fail(f"{tag}|ping-period", f"consecutive pings at {a:.2f} and {b:.2f}, interval {I}")
                 break
-    elif t_end - t0 > 2 * I + EPS and T is not None:
-        obs.fail(f"{tag}|no-ping-sent", f"connection up for {t_end - t0:.1f}s, interval {I}")
+    elif t_end - t0 > 2 * I + EPS:
+        obs.fail(f"{tag}|no-ping-sent{'|second-run' if rerun else ''}", f"connection up for {t_end - t0:.1f}s, interval {I}")
     expect_n = int((t_end - t0) / I + EPS) - 1
     if len(pings) < expect_n - 1:
         obs.fail(f"{tag}|pings-missing", f"{len(pings)} pings during {t_end - t0:.1f}s with interval {I}")
@@ -161,8 +171,8 @@ def _cls(obs, case, npings):
                 near = True
     nt = npings >= 3 and (silent or near)
     obs.cls = (f"ratio:{'I<=2T' if T and I <= 2 * T else 'I>2T'}", f"silent:{int(silent)}", f"traffic:{min(len(tr), 4)}", f"near_ping_traffic:{int(near)}",
-               f"pings:{min(npings // 5 * 5, 30)}", f"late_pongs:{int(any(l is not None and T and l >= T for l in case.get('pong', [])))}", f"tls:{int(bool(case.get('secure')))}")
-    obs.nt = repr((I, T, case.get("pong"), case.get("silent_from"), tr, case.get("choices"), sorted((case.get("preempt") or {}).items()), case.get("payload"), case.get("secure"))) if nt else None
+               f"pings:{min(npings // 5 * 5, 30)}", f"late_pongs:{int(any(l is not None and T and l >= T for l in case.get('pong', [])))}", f"tls:{int(bool(case.get('secure')))}", f"second_run:{int(bool(case.get('rerun')))}")
+    obs.nt = repr((I, T, case.get("pong"), case.get("silent_from"), tr, case.get("choices"), sorted((case.get("preempt") or {}).items()), case.get("payload"), case.get("secure"), case.get("rerun"))) if nt else None
     return obs
 
 
@@ -180,6 +190,8 @@ def grid_cases():
             yield {"interval": I, "timeout": T, "payload": "keepalive", "traffic": [[2 * I + 0.5 * T, "data"], [3 * I - 0.2, "pong"], [5 * I + T + 0.5, "pong"], [7 * I, "ping"]]}
             yield {"interval": I, "timeout": T, "secure": True, "traffic": [[2 * I + 0.5 * T, "data"], [3 * I - 0.2, "pong"], [5 * I + T + 0.5, "pong"]]}
             yield {"interval": I, "timeout": T, "secure": True, "silent_from": 1, "traffic": [[3 * I + 0.3 * T, "data"], [3 * I + 0.9 * T, "data"]]}
+            yield {"interval": I, "timeout": T, "rerun": True, "silent_from": 1}
+            yield {"interval": I, "timeout": T, "rerun": True, "payload": "again"}
             for n in (0, 1, 3):
                 yield {"interval": I, "timeout": T, "silent_from": n}
                 yield {"interval": I, "timeout": T, "silent_from": n, "traffic": [[(n + 2) * I + 0.3 * T, "data"], [(n + 2) * I + 0.9 * T, "data"], [(n + 2) * I + 1.4 * T, "ping"]]}
@@ -191,7 +203,8 @@ def grid_cases():
 def cases(draw):
     T = draw(st.sampled_from(TS))
     I = draw(st.sampled_from(ratios(T)))
-    c = {"interval": I, "timeout": T, "payload": draw(st.sampled_from(["", "", "hb", "é"])), "secure": draw(st.integers(0, 2)) == 0}
+    c = {"interval": I, "timeout": T, "payload": draw(st.sampled_from(["", "", "hb", "é"])), "secure": draw(st.integers(0, 2)) == 0,
+         "rerun": draw(st.integers(0, 3)) == 0}
     mode = draw(st.sampled_from(["responsive", "responsive", "silent", "silent", "late"]))
     if mode == "silent":
         c["silent_from"] = draw(st.integers(0, 6))
